@@ -19,6 +19,7 @@ type RunOpts struct {
 	Record   bool    // record unsat cores of obligations that needed the full query
 	Cross    int     // thorough tier: also run the FULL query of every hint-discharged obligation for this many seconds
 	Fresh    bool    // thorough tier: vacuity guards are re-run, not taken from the record
+	Short    map[string]bool // obligations listed as known findings: expected not to discharge, tried for 10 s only
 }
 
 // Discharge runs all obligations in parallel.
@@ -46,6 +47,8 @@ func Discharge(vcs []*FuncVC, opts RunOpts) {
 				if j.o.Cover {
 					to = 1
 					solvers = solvers[:1]
+				} else if opts.Short[j.o.Name] && to > 10 {
+					to = 10
 				}
 				if opts.KeepDir != "" {
 					os.WriteFile(opts.KeepDir+"/"+mangle(j.o.Name)+".smt2", []byte(q+"\n(check-sat)\n(get-model)\n"), 0o644)
